@@ -3,6 +3,7 @@
   Property theorems (statements in words: design/C02.md).
 -/
 import Vita.C02.Lemmas
+import Vita.C02.CseLemmas
 namespace Vita.C02
 
 /-! ## symbol_set::roulette -/
@@ -438,6 +439,22 @@ theorem cse_preserves_unfold {ss : SymSet} {pre post : Ind} (h : WF ss pre)
   unfold unfold
   rw [hrows]
   exact key _ _ _ hl.1 hl.2 (Nat.le_refl _)
+
+/-- The model of `cse()` (a finite map keyed by the rewritten genes, rows scanned from the last
+    one) satisfies the step relation. -/
+theorem cse_refines {ss : SymSet} {x : Ind} (hw : WF ss x) (hp : x.rows ≤ PACK) :
+    CseStep x (cse x) := by
+  have h := cse_inv hw hp
+  unfold cse
+  refine ⟨⟨h.rows, h.cols⟩, h.best, h.age, h.xover, ?_⟩
+  intro i hi c hc
+  obtain ⟨s1, s2, s3⟩ := h.same i hi c hc
+  exact ⟨s1, s2, s3, fun k hk => h.done i hi c hc trivial k hk⟩
+
+/-- `cse()` of a well-formed individual is well-formed and denotes the same expression. -/
+theorem wf_cse {ss : SymSet} {x : Ind} (hw : WF ss x) (hp : x.rows ≤ PACK) :
+    WF ss (cse x) ∧ ∀ l, Inside x l → unfold (cse x) l = unfold x l :=
+  ⟨wf_cseStep hw (cse_refines hw hp), fun _ hl => cse_preserves_unfold hw (cse_refines hw hp) hl⟩
 
 /-! ## closure over operator histories -/
 
